@@ -76,6 +76,7 @@ def generate(rng: random.Random, tier: str) -> dict:
     mode = rng.choice(["same-exact"] * 5 + ["same-inexact"] * 2 + ["same-rotated"] * 2 + ["cross"] * 4)
     sides = [1, 2, 3, 5, 8, 13, 16, 17, 24, 31, 48] + ([64, 96] if tier == "thorough" else [])
     sny, snx = rng.choice(sides), rng.choice(sides)
+    sch = [_draw_chunk(rng, sny), _draw_chunk(rng, snx)]
     dtype = rng.choice(["uint8", "int8", "uint16", "int16", "int32", "float32", "float64", "bool"] * 4 + ["uint32", "int64"])
     kind = np.dtype(dtype).kind
     nd_cfg = rng.choice(["none", "none", "src", "dst", "both", "nan"])
@@ -115,6 +116,8 @@ def generate(rng: random.Random, tier: str) -> dict:
             place = rng.choice(["contain", "contain", "partial", "partial", "touch", "disjoint", "inside"])
             dsy = sy if rng.random() < 0.75 else -sy
             dsx = sx if rng.random() < 0.85 else -sx
+            if rng.random() < 0.12 and crs != 4326:
+                place = "sliver"  # extreme zoom-in onto a hair's breadth next to a source pixel / chunk boundary
         else:
             ps = rng.choice([10.0, 30.0, 0.1, 25.0, 7.3])
             if crs == 4326:
@@ -154,6 +157,18 @@ def generate(rng: random.Random, tier: str) -> dict:
                 by0, by1 = y_lo + h, y_lo + 2 * h + pad_t * dps
             else:
                 by0, by1 = y_lo - h - pad_b * dps, y_lo
+        elif place == "sliver":
+            scale = 1.0 / rng.choice([512, 1024, 4096])
+            dps = ps * scale
+            unit = dps / 4.0
+            cx, cy = rng.randrange(1, max(2, snx)), rng.randrange(1, max(2, sny))  # a source pixel corner ...
+            if rng.random() < 0.7:  # ... preferably one where four source chunks meet
+                cx = sch[1] * rng.randrange(1, max(2, -(-snx // sch[1]))) if sch[1] < snx else cx
+                cy = sch[0] * rng.randrange(1, max(2, -(-sny // sch[0]))) if sch[0] < sny else cy
+            kx, ky = rng.choice([0.75, 0.5, 1.25, 3.0, 8.0]), rng.choice([0.75, 0.5, 1.25, 3.0, 8.0])
+            bx0 = x_lo + cx * ps - kx * dps
+            by0 = y_lo + cy * ps - ky * dps
+            bx1, by1 = bx0 + rng.choice([1, 8, 24]) * dps, by0 + rng.choice([1, 8, 24]) * dps
         else:  # disjoint
             k = rng.choice([2, 3, 10])
             bx0, bx1 = x_lo + k * w + 5 * dps, x_lo + (k + 1) * w + (5 + pad_r) * dps
@@ -168,6 +183,10 @@ def generate(rng: random.Random, tier: str) -> dict:
         dox = bx0 if dsx > 0 else bx0 + dnx * dps
         doy = by0 if dsy > 0 else by0 + dny * dps
         dst_aff = [dps * dsx, 0.0, dox, 0.0, dps * dsy, doy]
+        if mode == "same-exact" and place == "sliver" and rng.random() < 0.4:
+            # a shear far below what can move a pixel centre across an edge within this raster
+            dst_aff[1] = dps * rng.choice([9e-6, 2e-6, 5e-8])
+            mode = "same-inexact"
         if mode == "same-rotated":
             ang = rng.choice([5.0, 30.0, 45.0, 90.0, -17.0, 180.0])
             dst_aff = ["rot", ang, dps, dox, doy, dnx, dny]
@@ -183,7 +202,6 @@ def generate(rng: random.Random, tier: str) -> dict:
             "crs": d_crs,
             "derive": {"place": place, "zoom": rng.choice([1.0, 1.0, 0.5, 1.7, 3.0]), "pad": [rng.randrange(0, 8) for _ in range(4)], "k": rng.choice([2, 3, 30])},
         }
-    sch = [_draw_chunk(rng, sny), _draw_chunk(rng, snx)]
     dch = [rng.choice([1, 2, 3, 5, 7, 16, 64]), rng.choice([1, 2, 3, 5, 7, 16, 64])]
     tch = rng.choice([1, max(tdim, 1)])
     src_irregular = None
@@ -386,6 +404,7 @@ def execute(record: dict, rng: Optional[random.Random]) -> Outcome:
         "irregular_source_chunks": 0,
         "default_destination_chunks": 0,
         "trailing_band_axis": 0,
+        "extreme_zoom_in": 0,
     }
     dtype = cfg["dtype"]
     src_nd = float("nan") if cfg["src_nodata"] == "nan" else cfg["src_nodata"]
@@ -472,6 +491,8 @@ def execute(record: dict, rng: Optional[random.Random]) -> Outcome:
         v = check(cfg, src, dst, ref, outs, fv, probes)
     for o in outs:
         log.add("result", o.shape, str(o.dtype), _hash_arr(o))
+    if _dst_px_in_src_px(src, dst) < 1 / 400:
+        probes["extreme_zoom_in"] = 1
     if cfg["mode"] == "cross":
         probes["cross_crs_runs"] = 1
     if cfg["mode"] == "same-rotated":
